@@ -119,6 +119,14 @@ impl WalRecuperator {
             return Ok(());
         }
 
+        // The records that follow refer to the object by the ID it had when it was created.
+        if let Some(object_id) = create_op.row_id() {
+            self.dml_executor
+                .ctx()
+                .catalog()
+                .advance_next_object_id(object_id);
+        }
+
         // Try to deserialize as CreateTableInstr first
         if let Ok(create_table_instr) = CreateTableInstr::from_bytes(redo_bytes) {
             let instr = DdlInstruction::CreateTable(create_table_instr);
